@@ -90,6 +90,10 @@ type AttOpts struct {
 	Dialect     int    `json:"dialect"`
 	DefaultFile bool   `json:"default_file"` // use the package's default FileEventer (on simfs)
 	Cwd         string `json:"cwd,omitempty"`
+	// CustomData: a user-written data handler (WithDataHandleFunc) that embeds the package's base handler and keeps
+	// the record table itself, as the option's documentation invites; non-HLJ dialects only (the HLJ packet-header
+	// parser is not exported)
+	CustomData bool `json:"custom_data,omitempty"`
 }
 
 type FilePlan struct {
